@@ -124,7 +124,7 @@ def _build_tu(o, canary=False, witness=False):
                  '#pragma CPROVER check disable "pointer-overflow"\n#pragma CPROVER check disable "signed-overflow"\n'
                  '#pragma CPROVER check disable "undefined-shift"\n#pragma CPROVER check disable "div-by-zero"')
     for inc in o.includes:
-        if inc.startswith('spec/'):
+        if inc.startswith('spec/') and not inc.endswith('.late.h'):
             parts.append('#include "%s/%s"' % (VERIF, inc))
     parts.append('#pragma CPROVER check pop')
     for inc in o.includes:
@@ -132,6 +132,15 @@ def _build_tu(o, canary=False, witness=False):
             parts.append('#include "%s/%s"' % (VERIF, inc))
     parts.append('/* ---- data dumped by the real compiler ---- */')
     parts.append(tables)
+    # spec headers that talk about the real enumerators (E_...) must follow the dumped enumerator definitions
+    late = [inc for inc in o.includes if inc.startswith('spec/') and inc.endswith('.late.h')]
+    if late:
+        parts.append('#pragma CPROVER check push\n#pragma CPROVER check disable "bounds"\n#pragma CPROVER check disable "pointer"\n'
+                     '#pragma CPROVER check disable "pointer-overflow"\n#pragma CPROVER check disable "signed-overflow"\n'
+                     '#pragma CPROVER check disable "undefined-shift"\n#pragma CPROVER check disable "div-by-zero"')
+        for inc in late:
+            parts.append('#include "%s/%s"' % (VERIF, inc))
+        parts.append('#pragma CPROVER check pop')
     parts.append('/* ---- extracted functions ---- */')
     parts.append(gen_text)
     parts.append('/* ---- harness ---- */')
